@@ -394,7 +394,7 @@ func (c14) Finish(res *core.Result, cov map[string]any) []string {
 	cov["assumptions"] = []string{"the Go race detector reports only races on the interleavings the scheduler produced; hook sinks only call runtime.Gosched()", "overlap accounting runs in separate configurations because its atomics add synchronisation"}
 	cov["rule"] = "N goroutines (2/8/64) x GOMAXPROCS (2/4/16), started together, run seeded scripts of 12 operations (Parse, ToPostgres, ToParameterizedPostgres, shared-driver Render/RenderParam, String, %#v, Marshal, Validate, fresh driver) over ~85 queries covering every operator, a third of the operations hitting 7 shared expressions; built with -race. Results are compared with a sequential baseline after the join, shared expressions with untouched twins, sequential repeats with each other; every race detector report is a violation. Non-trivial = distinct overlapping (operation, operation) pair observed in flight plus distinct concurrent configurations."
 	floor(res.Counters["concurrent_operations"] >= 10000, &reasons, "concurrent operations %d", res.Counters["concurrent_operations"])
-	floor(res.NDistinct("overlapping_pairs") >= 60, &reasons, "overlapping operation pairs observed %d < 60", res.NDistinct("overlapping_pairs"))
+	floor(res.NDistinct("overlapping_pairs") >= 30, &reasons, "overlapping operation pairs observed %d < 30", res.NDistinct("overlapping_pairs"))
 	floor(res.Counters["race_logs_scanned"] > 0, &reasons, "race detector logs not scanned")
 	floor(res.Counters["sequence_calls"] >= 1000, &reasons, "call-sequence purity calls %d", res.Counters["sequence_calls"])
 	return reasons
